@@ -464,6 +464,11 @@ func (ex *Exec) callSpec(fr *Frame, st *State, c *FuncContract, args []*Value, r
 	if !c.Functional && ex.discover == nil {
 		ex.bumpFrontier(res)
 	}
+	if c.FreshResult && res != nil {
+		if pt, ok := res.T.Underlying().(*types.Pointer); ok && heapClass(typeKey(pt.Elem())+"|0") == clsForeign {
+			ex.ownedForeign[res.C[0].id] = &ownedObj{ref: res.C[0], t: pt.Elem()}
+		}
+	}
 	env.st = st
 	env.old = pre
 	internal := map[string]bool{}
@@ -542,22 +547,59 @@ func (ex *Exec) frameOf(fn *ssa.Function) *writeSet {
 	// the callee's own locals are irrelevant to callers
 	ws.locals = map[*ssa.Alloc]bool{}
 	ex.frames[fn] = ws
+	ex.frameParams[fn] = params
 	return ws
+}
+
+// translateFrame rewrites the objects a callee frame names (its parameters' own
+// references) into the caller's argument terms; anything else becomes "some object".
+func (ex *Exec) translateFrame(ws *writeSet, callee *ssa.Function, args []*Value) *writeSet {
+	out := &writeSet{mark: int(^uint(0) >> 1), all: ws.all, classes: ws.classes, heap: map[string]heapKeyInfo{}, locals: map[*ssa.Alloc]bool{}, ghosts: map[string]bool{}}
+	params := ex.frameParams[callee]
+	tr := map[*Term]*Term{}
+	if len(params) == len(args) {
+		for i, p := range params {
+			if len(p.C) != len(args[i].C) {
+				continue
+			}
+			for j := range p.C {
+				if _, dup := tr[p.C[j]]; !dup {
+					tr[p.C[j]] = args[i].C[j]
+				}
+			}
+		}
+	}
+	for k, info := range ws.heap {
+		ni := heapKeyInfo{rootKey: info.rootKey, root: info.root, comp: info.comp, sort: info.sort}
+		if info.wide || len(info.refs) == 0 {
+			out.noteWrite(k, ni, nil)
+			continue
+		}
+		for _, r := range info.refs {
+			if a, ok := tr[r]; ok && a.Sort == r.Sort {
+				out.noteWrite(k, ni, a)
+			} else {
+				out.noteWrite(k, ni, nil)
+			}
+		}
+	}
+	return out
 }
 
 // havocCalleeWrites applies a callee frame at a call site, translating writes
 // through pointer parameters that point into the interior of caller objects or
 // at caller locals.
 func (ex *Exec) havocCalleeWrites(st *State, ws *writeSet, args []*Value, callee *ssa.Function) {
+	tws := ex.translateFrame(ws, callee, args)
 	if ex.discover != nil {
-		ex.discover.addAll(&writeSet{all: ws.all, classes: ws.classes, heap: ws.heap, locals: map[*ssa.Alloc]bool{}})
+		ex.discover.addAll(tws)
 	}
 	if ws.all {
 		ex.havocAllHeap(st)
 		ex.havocExposedLocals(st, args)
 		return
 	}
-	ex.havocWrites(st, &writeSet{classes: ws.classes, heap: ws.heap, locals: map[*ssa.Alloc]bool{}})
+	ex.havocWrites(st, tws)
 	for _, a := range args {
 		ex.havocThroughArg(st, a, ws)
 	}
@@ -650,7 +692,7 @@ func (ex *Exec) applyModifies(env *Env, st *State, m ModTarget) {
 				continue
 			}
 			if ex.discover != nil {
-				ex.discover.heap[fmt.Sprintf("%s|%d", typeKey(t), i)] = heapKeyInfo{rootKey: typeKey(t), root: t, comp: i, sort: c.Sort}
+				ex.discover.noteWrite(fmt.Sprintf("%s|%d", typeKey(t), i), heapKeyInfo{rootKey: typeKey(t), root: t, comp: i, sort: c.Sort}, nil)
 			}
 			ex.havocHeapKey(st, typeKey(t), i, c.Sort)
 		}
@@ -700,7 +742,7 @@ func (ex *Exec) applyModifies(env *Env, st *State, m ModTarget) {
 				hs := ArrOf(cs)
 				h := ex.heapMap(st, key, i, hs)
 				if ex.discover != nil {
-					ex.discover.heap[fmt.Sprintf("%s|%d", key, i)] = heapKeyInfo{rootKey: key, comp: i, sort: hs}
+					ex.discover.noteWrite(fmt.Sprintf("%s|%d", key, i), heapKeyInfo{rootKey: key, comp: i, sort: hs}, v.C[0])
 				}
 				ex.setHeapMap(st, key, i, ex.tb.Store(h, v.C[0], ex.tb.Fresh("modmap", hs)))
 			}
@@ -729,7 +771,7 @@ func (ex *Exec) havocSliceContents(st *State, v *Value, u *types.Slice) {
 	for i, c := range ex.L.Backing(u.Elem()) {
 		h := ex.heapMap(st, key, i, c.Sort)
 		if ex.discover != nil {
-			ex.discover.heap[fmt.Sprintf("%s|%d", key, i)] = heapKeyInfo{rootKey: key, root: sliceRootType(v.T), comp: i, sort: c.Sort}
+			ex.discover.noteWrite(fmt.Sprintf("%s|%d", key, i), heapKeyInfo{rootKey: key, root: sliceRootType(v.T), comp: i, sort: c.Sort}, v.C[0])
 		}
 		ex.setHeapMap(st, key, i, ex.tb.Store(h, v.C[0], ex.tb.Fresh("modbk", c.Sort)))
 	}
@@ -867,6 +909,16 @@ func (ex *Exec) execGo(fr *Frame, st *State, in *ssa.Go) {
 		}
 		if writesFreeVar(fn, fv) {
 			st.volat[a] = true
+		}
+	}
+	// fork rule: the child's precondition (over its captured variables, which carry the
+	// names of the parent's variables) is established by the parent at the spawn; it stays
+	// true because the race-free obligations forbid the parent to write them afterwards.
+	if ct := ex.prog.contractFor(fn); ct != nil && ex.discover == nil {
+		for _, r := range ct.Requires {
+			env := ex.specEnv(fr, st, in.Pos())
+			cond := ex.evalSpecBool(env, r.Expr)
+			ex.obligeSpec(st, "spawn-requires", ex.siteWhat(in)+":"+r.Label, cond, r, in)
 		}
 	}
 	ex.note("go statement: child body checked separately (footprint rule), not interleaved")
@@ -1225,7 +1277,7 @@ func (ex *Exec) setBackingArray(st *State, s *Value, comp int, arr *Term) {
 	c := ex.L.Backing(backingElem(rt))[comp]
 	key := typeKey(rt)
 	if ex.discover != nil && !ex.isFreshRef(s.C[0]) {
-		ex.discover.heap[fmt.Sprintf("%s|%d", key, comp)] = heapKeyInfo{rootKey: key, root: rt, comp: comp, sort: c.Sort}
+		ex.discover.noteWrite(fmt.Sprintf("%s|%d", key, comp), heapKeyInfo{rootKey: key, root: rt, comp: comp, sort: c.Sort}, s.C[0])
 	}
 	h := ex.heapMap(st, key, comp, c.Sort)
 	ex.setHeapMap(st, key, comp, ex.tb.Store(h, s.C[0], arr))
@@ -1614,13 +1666,13 @@ func (ex *Exec) mapStore(st *State, m *Value, k *Value, v *Value) {
 	hs := ArrOf(SBool)
 	h := ex.heapMap(st, key, 0, hs)
 	if ex.discover != nil {
-		ex.discover.heap[key+"|0"] = heapKeyInfo{rootKey: key, comp: 0, sort: hs}
+		ex.discover.noteWrite(key+"|0", heapKeyInfo{rootKey: key, comp: 0, sort: hs}, m.C[0])
 	}
 	ex.setHeapMap(st, key, 0, tb.Store(h, m.C[0], tb.Store(tb.Select(h, m.C[0]), kt, tb.True)))
 	for i, c := range ex.L.Of(mt.Elem()).Comps {
 		hv := ex.heapMap(st, key, i+1, ArrOf(c.Sort))
 		if ex.discover != nil {
-			ex.discover.heap[fmt.Sprintf("%s|%d", key, i+1)] = heapKeyInfo{rootKey: key, comp: i + 1, sort: ArrOf(c.Sort)}
+			ex.discover.noteWrite(fmt.Sprintf("%s|%d", key, i+1), heapKeyInfo{rootKey: key, comp: i + 1, sort: ArrOf(c.Sort)}, m.C[0])
 		}
 		ex.setHeapMap(st, key, i+1, tb.Store(hv, m.C[0], tb.Store(tb.Select(hv, m.C[0]), kt, v.C[i])))
 	}
@@ -1633,7 +1685,7 @@ func (ex *Exec) mapDelete(st *State, m *Value, k *Value) {
 	hs := ArrOf(SBool)
 	h := ex.heapMap(st, key, 0, hs)
 	if ex.discover != nil {
-		ex.discover.heap[key+"|0"] = heapKeyInfo{rootKey: key, comp: 0, sort: hs}
+		ex.discover.noteWrite(key+"|0", heapKeyInfo{rootKey: key, comp: 0, sort: hs}, m.C[0])
 	}
 	ex.setHeapMap(st, key, 0, tb.Store(h, m.C[0], tb.Store(tb.Select(h, m.C[0]), kt, tb.False)))
 }
